@@ -1203,3 +1203,74 @@ CHECKS.append(Check("csv_codec_fuzz", check_fuzz_campaign, mode="enum", cases=ca
                     rule="thorough tier only: atheris/libFuzzer campaign (hypothesis fuzz_one_input as mutator, fixed -runs and "
                          "-seed, seeded and empty corpus) on one-entry CSV round trips; coverage from string_utilities and "
                          "parsing.csv; oracle and known-finding classes identical to csv_roundtrip / csv_outside"))
+
+
+
+# ---- isotherms brought into their representation by a permanent conversion ------------------------------------------------
+# (labels such as loading_unit = None for fraction / percent or pressure_unit = None for relative modes then come from
+#  convert_*, not from the constructor; "every unit label" must survive the three formats for these as well)
+def strat_converted():
+    return st.builds(lambda fmt, iso, p, l, t: {"fmt": fmt, "iso": iso, "to_p": p, "to_l": l, "to_t": t},
+                     st.sampled_from(["csv", "xl", "aif"]),
+                     S.point_desc(min_points=1, max_points=8, extras=False, meta=False),
+                     st.one_of(st.none(), S.p_rep()),
+                     st.sampled_from([None, ("fraction", None), ("percent", None), ("fraction", None), ("percent", None),
+                                      ("molar", "mol"), ("volume_liquid", "cm3")]),
+                     st.sampled_from([None, "K", "°C"]))
+
+
+def check_converted(desc, ctx):
+    K.reset_registries()
+    if desc["fmt"] == "csv" and "," in desc["iso"]["adsorbate"]:
+        ctx.label("adsorbate_name_contains_separator_skipped")  # refused with ParsingError, which the property allows
+        return
+    x = K.build_point(desc["iso"])
+    if desc["to_p"]:
+        x.convert_pressure(mode_to=desc["to_p"][0], unit_to=desc["to_p"][1])
+    if desc["to_l"]:
+        x.convert_loading(basis_to=desc["to_l"][0], unit_to=desc["to_l"][1])
+    if desc["to_t"]:
+        x.convert_temperature(desc["to_t"])
+    units = dict(x.units)
+    fmt = desc["fmt"]
+    tmp = tempfile.mkdtemp(prefix="c07conv_", dir="/dev/shm" if os.path.isdir("/dev/shm") else None)
+    try:
+        if fmt == "csv":
+            r = pgp.isotherm_from_csv(pgp.isotherm_to_csv(x))
+        elif fmt == "xl":
+            path = os.path.join(tmp, "iso.xls")
+            pgp.isotherm_to_xl(x, path)
+            r = pgp.isotherm_from_xl(path)
+        else:
+            path = os.path.join(tmp, "iso.aif")
+            pgp.isotherm_to_aif(x, path)
+            r = pgp.isotherm_from_aif(path)
+    finally:
+        shutil.rmtree(tmp, ignore_errors=True)
+    got = dict(r.units)
+    if got != units:
+        diff = {k: (units[k], got.get(k)) for k in units if units[k] != got.get(k)}
+        raise Violation(f"[{fmt}] isotherm converted to {units}: unit labels after the round trip differ: {diff}",
+                        tag=f"converted_units:{fmt}")
+    for col in (x.pressure_key, x.loading_key):
+        a = x.data_raw[col].to_numpy(dtype=float)
+        b = r.data_raw[r.pressure_key if col == x.pressure_key else r.loading_key].to_numpy(dtype=float)
+        if a.shape != b.shape or not np.all(np.abs(a - b) <= 0.5e-8 + 1e-12 * np.abs(a)):
+            raise Violation(f"[{fmt}] isotherm converted to {units}: column {col!r} {a.tolist()} came back as {b.tolist()}",
+                            tag=f"converted_data:{fmt}")
+    marks = [int(v) for v in x.data_raw["branch"]]
+    if marks != [int(v) for v in r.data_raw["branch"]]:
+        # AIF stores an adsorption loop followed by a desorption loop: interleaved marks are the open finding KF-C07-17
+        if not (fmt == "aif" and sorted(marks) != marks):
+            raise Violation(f"[{fmt}] isotherm converted to {units}: branch marks changed", tag=f"converted_branch:{fmt}")
+    if str(r.adsorbate) != str(x.adsorbate) or str(r.material) != str(x.material) or \
+            abs(float(r._temperature) - float(x._temperature)) > 1e-8 * max(1.0, abs(float(x._temperature))):
+        raise Violation(f"[{fmt}] isotherm converted to {units}: adsorbate / material / temperature changed",
+                        tag=f"converted_core:{fmt}")
+    ctx.label(fmt, "lu_none" if units["loading_unit"] is None else "lu_set", "pu_none" if units["pressure_unit"] is None else "pu_set")
+    ctx.nt([fmt, units, desc["iso"]["pressure"]], desc)
+
+
+CHECKS.append(Check("converted_labels", check_converted, strategy=strat_converted, budget={"quick": 900, "thorough": 12000},
+                    rule="point isotherms permanently converted (relative modes, fraction / percent, temperature unit) before "
+                         "export: unit labels, data columns, branch marks and core fields after each format's round trip"))
